@@ -4,7 +4,7 @@
    to /repo by the correspondence check on every run). *)
 From Coq Require Import List ZArith Lia Bool.
 From RecordUpdate Require Import RecordSet.
-From Sim Require Import Map Variant Current Kernel Queue Net Pcap SimState Sim RegistryProofs SockProofs QueueProofs.
+From Sim Require Import Map Variant Current Kernel Queue Net Pcap SimState Sim RegistryProofs SockProofs QueueProofs RxProofs.
 Import ListNotations.
 Import RecordSetNotations.
 Local Open Scope Z_scope.
@@ -57,3 +57,105 @@ Theorem C05_queues_conserve :
     Interleave (h_drop _ h) (rev (map snd (q_items _ (h_q _ h))) ++ h_fwd _ h) (h_arr _ h).
 Proof. intros q0 ops Hi Hs. exact (proj2 (conservation packet pkt_size pkt_droppable ser_double q0 ops Hi Hs)). Qed.
 Print Assumptions C05_queues_conserve.
+
+(* ---- receiver, end to end (Proofs/RxProofs.v): for every list [sent] of numbered
+   segments, every sequence of arrivals of segments out of it - in any order, any
+   number of times each, i.e. any pattern of drops, delays, reordering and
+   retransmission - interleaved with reads of any sizes ---- *)
+
+Theorem C05_bytes_read_are_a_prefix_of_bytes_sent :
+  forall sent evs, wf_sent sent -> Forall (ok_ev sent) evs ->
+  let got := snd (fold_left rx_step evs rx_init) in exists rest, cstream sent = got ++ rest.
+Proof. exact reader_gets_an_exact_prefix. Qed.
+Print Assumptions C05_bytes_read_are_a_prefix_of_bytes_sent.
+
+Theorem C05_read_plus_queued_is_exactly_the_released_segments :
+  forall sent evs, wf_sent sent -> Forall (ok_ev sent) evs ->
+  let st := fold_left rx_step evs rx_init in
+  snd st ++ stream (rx_inq (fst st)) = cstream (firstn (Z.to_nat (rx_next (fst st))) sent).
+Proof. exact read_plus_queued_is_the_released_prefix. Qed.
+Print Assumptions C05_read_plus_queued_is_exactly_the_released_segments.
+
+Theorem C05_reorder_buffer_never_holds_the_awaited_segment :
+  forall sent evs, wf_sent sent -> Forall (ok_ev sent) evs ->
+  let r := fst (fold_left rx_step evs rx_init) in
+  forall k p, In (k, p) (rx_ro r) -> k <> rx_next r.
+Proof. exact nothing_deliverable_is_held_back. Qed.
+Print Assumptions C05_reorder_buffer_never_holds_the_awaited_segment.
+
+Theorem C05_eof_is_reported_after_every_byte :
+  forall sent evs p q, wf_sent sent -> Forall (ok_ev sent) evs ->
+  let st := fold_left rx_step evs rx_init in
+  rx_inq (fst st) = p :: q -> p_type p = PError -> snd st = cstream sent.
+Proof. exact eof_is_reached_after_every_byte. Qed.
+Print Assumptions C05_eof_is_reported_after_every_byte.
+
+Theorem C05_eof_is_released_last :
+  forall sent evs p, wf_sent sent -> Forall (ok_ev sent) evs ->
+  let r := fst (fold_left rx_step evs rx_init) in
+  In p (rx_inq r) -> p_type p = PError -> rx_next r = Z.of_nat (length sent).
+Proof. exact eof_queued_means_all_released. Qed.
+Print Assumptions C05_eof_is_released_last.
+
+Theorem C05_premises_are_satisfiable :
+  (wf_sent ex_sent /\ Forall (ok_ev ex_sent) ex_evs) /\
+  snd (fold_left rx_step ex_evs rx_init) = [1; 2; 3; 4; 5; 6] /\
+  map p_type (rx_inq (fst (fold_left rx_step ex_evs rx_init))) = [PError].
+Proof. exact (conj ex_premises ex_run). Qed.
+Print Assumptions C05_premises_are_satisfiable.
+
+(* rx_arrive / read_loop are what the socket operations of the model compute *)
+Theorem C05_incoming_packet_is_rx_arrive :
+  forall cx s p w ci,
+  p_type p = PPayload \/ p_type p = PError -> t_chan (get_tcp w s) = Some ci ->
+  let c := get_chan w ci in
+  let t0 := get_tcp w s in
+  let ack := mk_packet PAck 0 [] ep_none 20 (chan_hops c (remote_idx c (t_bound t0))) None (p_seq p) None in
+  let w1 := fst (cfwd cx ack w) in
+  let c1 := snd (cfwd cx ack w) in
+  let t := get_tcp w1 s in
+  let r' := rx_arrive (rx_of t) p in
+  let t' := t <| t_next_in := rx_next r' |> <| t_inq := rx_inq r' |> <| t_reorder := rx_ro r' |> in
+  tcp_incoming cx s p w =
+    if p_seq p =? t_next_in t
+    then (fst (tcp_maybe_wakeup_reader cx s (set_tcp w1 s t')), c1 ++ snd (tcp_maybe_wakeup_reader cx s (set_tcp w1 s t')))
+    else (set_tcp w1 s t', c1).
+Proof. exact tcp_incoming_is_rx_arrive. Qed.
+Print Assumptions C05_incoming_packet_is_rx_arrive.
+
+Theorem C05_read_some_is_read_loop :
+  forall s bufs w ci p r,
+  let t := get_tcp w s in
+  t_open t = true -> t_chan t = Some ci -> t_connect_h t = None -> t_inq t = p :: r -> p_type p <> PError ->
+  let data := fst (read_loop (t_inq t) (sumz bufs) []) in
+  let q' := snd (read_loop (t_inq t) (sumz bufs) []) in
+  tcp_read_some s bufs w =
+    (EC_OK, data, set_tcp w s (t <| t_recv_buf := bufs |> <| t_inq := q' |>
+                                 <| t_qsize := t_qsize t - Z.of_nat (length data) |>))
+  /\ t_next_in (get_tcp (snd (tcp_read_some s bufs w)) s) = t_next_in t
+  /\ t_reorder (get_tcp (snd (tcp_read_some s bufs w)) s) = t_reorder t.
+Proof. exact tcp_read_some_is_rx_read. Qed.
+Print Assumptions C05_read_some_is_read_loop.
+
+Theorem C05_eof_read_ends_the_stream :
+  forall s bufs w ci p r,
+  let t := get_tcp w s in
+  t_open t = true -> t_chan t = Some ci -> t_connect_h t = None -> t_inq t = p :: r -> p_type p = PError ->
+  fst (tcp_read_some s bufs w) = (p_ec p, []) /\
+  forall bufs', fst (tcp_read_some s bufs' (snd (tcp_read_some s bufs w))) = (EC_NOT_CONNECTED, []).
+Proof. exact eof_read_ends_the_stream. Qed.
+Print Assumptions C05_eof_read_ends_the_stream.
+
+(* sender: what is retransmitted is the segment that was dropped *)
+Theorem C05_dropped_segment_is_requeued_unchanged :
+  forall v s p w ci, t_chan (get_tcp w s) = Some ci ->
+  exists p', t_outgoing (get_tcp (fst (tcp_packet_dropped v s p w)) s) = t_outgoing (get_tcp w s) ++ [p'] /\
+             core p' = core p /\ p_seq p' = p_seq p.
+Proof. exact dropped_segment_is_requeued_unchanged. Qed.
+Print Assumptions C05_dropped_segment_is_requeued_unchanged.
+
+Theorem C05_send_packet_keeps_kind_bytes_number :
+  forall cx s p w ci, t_chan (get_tcp w s) = Some ci ->
+  exists p' w', tcp_send_packet cx s p w = cfwd cx p' w' /\ core p' = core p /\ p_seq p' = p_seq p /\ p_drop p' = p_drop p.
+Proof. exact send_packet_forwards_kind_bytes_number. Qed.
+Print Assumptions C05_send_packet_keeps_kind_bytes_number.
